@@ -5,7 +5,7 @@ import qrdata_gen as G
 ID = 'C06'
 COQ_TARGETS = ['Props/Properties_C06.vo']
 PROPS_FILES = ['Props/Properties_C06.v']
-THEOREMS = ['C06_recode_decision', 'C06_plain', 'C06_checker_sound']
+THEOREMS = ['C06_recode_decision', 'C06_plain', 'C06_checker_sound', 'C06_qp_body']
 ENGINES = [dict(name='qrdata', c_sources=['qrdata_h.c'], extract='Extract/Extract_qrdata.v', driver='qrdata_driver.ml',
                 accepts=lambda c: c.startswith('06 '), libs=())]
 RULE = G.RULE
